@@ -217,6 +217,30 @@ func ruleV1(w *World, r *Report) {
 		okOrder := len(a) == 2 && isParamNamed(a[0], rv, "[]byte") && isKeyLoad(a[1])
 		r.Check(okOrder, rule, fmt.Sprintf("%s › comparator#%d called as compare(target, item.Key)", w.Name(rv), n), w.InstrPos(cb.Instr), "target first, item key second", "the comparator is called with its arguments swapped (or not on the item's key): the range is mirrored")
 	}
+	// the sign handed to the choice function is the comparator's verdict on every path: the
+	// range is defined by the collection's own order, for every target (empty ones included)
+	k := 0
+	eachInstr(rv, func(in ssa.Instruction) {
+		c, ok := in.(*ssa.Call)
+		if !ok || c.Common().IsInvoke() {
+			return
+		}
+		p, isP := c.Common().Value.(*ssa.Parameter)
+		if !isP || p.Parent() != rv || len(c.Common().Args) != 2 || c.Common().Args[0].Type().String() != "int" {
+			return
+		}
+		k++
+		src := callOfValue(stripConv(c.Common().Args[0]))
+		okSrc := false
+		if src != nil {
+			for _, cb := range w.G.CbIn[rv] {
+				if cb.Kind == "comparator" && cb.Instr == ssa.CallInstruction(src) {
+					okSrc = true
+				}
+			}
+		}
+		r.Check(okSrc, rule, fmt.Sprintf("%s › choice call#%d is driven by the comparator", w.Name(rv), k), w.InstrPos(in), "choiceFunc(compare(target, item.Key), node)", "the sign given to the choice function is not the comparator's result on every path (a constant or a short cut for some targets): under a custom comparator the delivered range is wrong for those targets")
+	})
 	r.Floor(rule, 5)
 }
 
